@@ -192,6 +192,27 @@ fn lit_alias_result(_w: &mut ZA) -> ZooOutcome {
     Err(ZooErr("behind an alias".into()))
 }
 
+// fallible steps whose return type reaches the attribute macro wrapped in another syntax node:
+// parenthesized, or as a `$ret:ty` fragment of a user macro (a `Type::Group`)
+#[allow(unused_parens)]
+#[when(regex = r"^paren res (ok|err)$")]
+fn re_paren_result(_w: &mut ZA, what: String) -> (Result<(), String>) {
+    rec("re_paren_result", format!("{what:?}"));
+    if what == "err" { Err("planned failure in parentheses".into()) } else { Ok(()) }
+}
+
+macro_rules! gen_step {
+    ($name:ident, $id:literal, $text:literal, $ret:ty, $body:expr) => {
+        #[given($text)]
+        fn $name(_w: &mut ZA) -> $ret {
+            rec($id, String::new());
+            $body
+        }
+    };
+}
+gen_step!(lit_macro_ret_err, "lit_macro_ret_err", "macro made err", Result<(), String>, Err("from a macro-made step".into()));
+gen_step!(lit_macro_ret_ok, "lit_macro_ret_ok", "macro made ok", Result<(), String>, Ok(()));
+
 #[then(regex = r"^step arg (\d+)$")]
 fn re_with_step(_w: &mut ZA, n: u8, #[step] st: &Step) {
     rec("re_with_step", format!("{n:?},{:?}", st.value));
@@ -401,6 +422,9 @@ fn defs() -> Vec<Def> {
         Def { world: 'A', kw: When, id: "re_alias_result", how: Re(r"^alias res (ok|err)$"), expect: |g, _| if g[0] == "err" { Err("planned failure behind an alias".into()) } else { Ok(format!("{:?}", g[0])) } },
         Def { world: 'A', kw: Given, id: "ex_alias_async", how: Expr("alias async {word}", r"^alias async ([^\s]+)$"), expect: |g, _| if g[0] == "err" { Err("async failure behind an alias".into()) } else { Ok(format!("{:?}", g[0])) } },
         Def { world: 'A', kw: Then, id: "lit_alias_result", how: Literal("alias literal err"), expect: |_, _| Err("zoo error: behind an alias".into()) },
+        Def { world: 'A', kw: When, id: "re_paren_result", how: Re(r"^paren res (ok|err)$"), expect: |g, _| if g[0] == "err" { Err("planned failure in parentheses".into()) } else { Ok(format!("{:?}", g[0])) } },
+        Def { world: 'A', kw: Given, id: "lit_macro_ret_err", how: Literal("macro made err"), expect: |_, _| Err("from a macro-made step".into()) },
+        Def { world: 'A', kw: Given, id: "lit_macro_ret_ok", how: Literal("macro made ok"), expect: none },
         Def { world: 'A', kw: Then, id: "re_with_step", how: Re(r"^step arg (\d+)$"), expect: |g, t| g[0].parse::<u8>().map(|n| format!("{n:?},{t:?}")).map_err(|_| "can not be parsed".into()) },
         Def { world: 'A', kw: When, id: "re_named_step_slice", how: Re(r"^named step (\w+) (\w+)$"), expect: |g, t| Ok(format!("{t:?},{g:?}")) },
         Def { world: 'A', kw: Given, id: "re_parse", how: Re(r"^num (\S+)$"), expect: |g, _| g[0].parse::<u32>().map(|n| format!("{n:?}")).map_err(|_| "can not be parsed".into()) },
@@ -485,6 +509,7 @@ const CORPUS: &[&str] = &[
     // regex
     "7 apples", "07 apples", "7 apples!", "x 7 apples", "99999999999 apples", "bob owes ann 5", "so bob owes ann 5 bucks", "bob owes ann", "bob owes ann -5",
     "slice a b c", "slice a b", "slice a b c d", "ints 1,2", "ints 1,300", "ints 1", "opt 1", "opt 1 and 2", "opt 1 and", "opt",
+    "paren res ok", "paren res err", "macro made err", "macro made ok",
     "alias res ok", "alias res err", "alias async ok", "alias async err", "alias async", "alias literal err",
     "res ok", "res err", "res maybe", "async res ok", "async res err", "step arg 5", "step arg 500", "named step x y", "named step x",
     "num 12", "num abc", "num -1", "num 4294967296", "éüü tail text", "éü ", "eüü x", "é x",
